@@ -44,6 +44,7 @@ func (e *enc) prelude() string {
 (declare-fun birth (Ref) Int)
 (declare-fun subobj (Ref Int) Ref)
 (declare-fun elemobj (Ref Int) Ref)
+(declare-fun sprint (Iface) Str)
 `)
 	if !e.bv {
 		b.WriteString(`(define-fun tdiv ((x Int) (y Int)) Int (ite (>= x 0) (ite (> y 0) (div x y) (- (div x (- y)))) (ite (> y 0) (- (div (- x) y)) (div (- x) (- y)))))
